@@ -28,12 +28,27 @@ class CallSite(object):
         self.text = norm_text(node)
 
 
+class _ModuleFunc(object):
+    """module-level code viewed as a parameterless function (for type and call inference)"""
+    kind = "func"
+    cls = None
+    parent = None
+    params = []
+
+    def __init__(self, m):
+        self.module = m.name
+        self.qual = "<module>"
+        self.qname = m.name + ":<module>"
+        self.node = m.tree
+
+
 class Lite(object):
     def __init__(self, program, internal_asserts=None, infeasible=None):
         self.p = program
         self.internal_asserts = internal_asserts or {}
         self.infeasible = infeasible or {}
         self.field_types = {}       # mangled field -> set of tags
+        self.field_types_by_cls = {}  # (class name, mangled field) -> set of tags
         self.field_writers = {}     # (cls or None, mangled field) -> list of (qname, node, receiver-kind)
         self.global_writers = {}    # (module, name) -> list of (qname, node)
         self.param_types = {}       # (qname, param) -> set of tags
@@ -56,9 +71,15 @@ class Lite(object):
             self.ret_types[f.qname] = set()
             if f.cls and f.kind == "method" and f.params:
                 self.param_types[(f.qname, f.params[0])] = {f.cls}
+        self.module_funcs = []
+        for m in p.modules.values():
+            self.module_funcs.append(_ModuleFunc(m))
+        for mf in self.module_funcs:
+            self.local_types[mf.qname] = {}
+            self.ret_types[mf.qname] = set()
         for _ in range(6):
             changed = False
-            for f in p.all_funcs():
+            for f in list(p.all_funcs()) + self.module_funcs:
                 changed |= self._infer_func(f)
             if not changed:
                 break
@@ -162,6 +183,12 @@ class Lite(object):
                     changed |= self._bind(f, a, elt, None)
         elif isinstance(tgt, ast.Attribute):
             mname = mangle(f.cls, tgt.attr)
+            if isinstance(tgt.value, ast.Name) and tgt.value.id == "self" and f.cls:
+                owners = {f.cls}
+            else:
+                owners = self.etype(f, tgt.value) & set(self.p.class_by_name)
+            for k in owners:
+                changed |= self._add(self.field_types_by_cls, (k, mname), set(t))
             if t:
                 changed |= self._add(self.field_types, mname, t)
         return changed
@@ -195,7 +222,18 @@ class Lite(object):
                     if r2 and r2[0] == "global":
                         return self._global_type(r2[1], r2[2])
                     return set()
-            return set(self.field_types.get(mangle(f.cls, e.attr), ()))
+            mname = mangle(f.cls, e.attr)
+            owners = self.etype(f, e.value) & set(self.p.class_by_name)
+            if owners:
+                out = set()
+                hit = False
+                for k in owners:
+                    if (k, mname) in self.field_types_by_cls:
+                        hit = True
+                        out |= self.field_types_by_cls[(k, mname)]
+                if hit:
+                    return out
+            return set(self.field_types.get(mname, ()))
         if isinstance(e, ast.Tuple):
             out = {"tuple"}
             for x in e.elts:
